@@ -35,7 +35,8 @@ Fixpoint balanced (depth : nat) (l : list string) : bool :=
               else balanced (if is_open x then S depth else depth) r
   end.
 
-(* list -> sections on tokens: `L( I( P t body ) I( P t body ) ) rest` becomes `H t body H t body rest` *)
+(* list -> sections on tokens: `L( I( P t body ) I( P t body ) ) rest` becomes `H t body H t body rest`;
+   an item without text `I( body )` becomes `H body` *)
 Fixpoint unwrap_items (fuel : nat) (l : list string) : option (list string) :=
   match fuel with
   | O => None
@@ -43,6 +44,14 @@ Fixpoint unwrap_items (fuel : nat) (l : list string) : option (list string) :=
       match l with
       | ")" :: rest => Some rest
       | "I(" :: "P" :: r =>
+          match until_close 0 r with
+          | Some (item, rest) => match unwrap_items f rest with Some x => Some ("H" :: item ++ x) | None => None end
+          | None => None
+          end
+      (* an item that does not start with text (it starts with a quote, code block, rule, table or
+         list: one section without text over all its blocks) becomes a heading without text
+         followed by those blocks *)
+      | "I(" :: r =>
           match until_close 0 r with
           | Some (item, rest) => match unwrap_items f rest with Some x => Some ("H" :: item ++ x) | None => None end
           | None => None
